@@ -44,6 +44,9 @@ func replay(path string) int {
 			fmt.Fprintln(os.Stderr, "replay: no value checker for", v.Property)
 			return 2
 		}
+		if wn, ok := v.Replay["warm_session"].(float64); ok && wn > 0 {
+			warmSession(ev.NewRun("replay", "replay"), int(wn)) // found after a long session: replay the session first
+		}
 		got = fn(t, val)
 	case "wire":
 		t := bind.TypeByQName(v.Replay["type"].(string))
